@@ -179,7 +179,7 @@ func c13Gen(r *Rand, tier string, emit func(op any)) {
 		}
 		payloads = append(payloads, b)
 	}
-	for _, w := range []string{"zapio", "stdlog", "testing", "bws"} {
+	for _, w := range []string{"zapio", "stdlog", "testing", "bws", "zapio-off", "stdlog-off", "stdlogat-off", "stdlog-nop"} {
 		for _, p := range payloads {
 			emit(c13Op{K: "writer", W: w, P: hx(p)})
 		}
@@ -359,6 +359,24 @@ func c13Exec(raw json.RawMessage) Result {
 		case "stdlog":
 			core, _ := observer.New(zapcore.DebugLevel)
 			w = zap.NewStdLog(zap.New(core)).Writer()
+		case "zapio-off", "stdlog-off", "stdlogat-off", "stdlog-nop":
+			// the same front ends over a logger that DISABLES the level they log at (or discards everything): the bytes
+			// are still consumed in full — a writer never reports a short count without an error
+			core, _ := observer.New(zapcore.ErrorLevel)
+			lg := zap.New(core)
+			switch op.W {
+			case "zapio-off":
+				zw := &zapio.Writer{Log: lg, Level: zapcore.DebugLevel}
+				w, cleanup = zw, func() { _ = zw.Close() }
+			case "stdlog-off":
+				w = zap.NewStdLog(lg).Writer()
+			case "stdlogat-off":
+				std, err := zap.NewStdLogAt(lg, zapcore.WarnLevel)
+				must(err)
+				w = std.Writer()
+			default:
+				w = zap.NewStdLog(zap.NewNop()).Writer()
+			}
 		case "testing":
 			w = zaptest.NewTestingWriter(&nopTB{})
 		case "bws":
